@@ -173,7 +173,7 @@ type deployed struct {
 	tmpl string
 }
 
-var tmplNames = []string{"counter", "forwarder", "store_log", "reverter", "nested", "touch_and_revert", "suicide", "loop", "invalid", "badjump", "balances", "sink", "context", "creator"}
+var tmplNames = []string{"counter", "forwarder", "store_log", "reverter", "nested", "touch_and_revert", "suicide", "loop", "invalid", "badjump", "balances", "sink", "context", "creator", "restore", "triple_counter", "store_context", "suicide_caller"}
 
 // contractTx builds a random deployment or call.
 func (g *Gen) contractTx(v *View, from int, nonce uint64, price *uint256.Int, bal *big.Int) (*rctypes.Trx, string) {
